@@ -514,11 +514,14 @@ def run(ctx):
     common.coq_make(["Model/Aggregate.vo"])
     common.standard_proof_stage(ctx, "C34", ["Properties/C34.vo"])
     expansion_stage(ctx, ctx.n(25, 300))
-    aggregate_stage(ctx, ctx.n(30, 500))
+    aggregate_stage(ctx, ctx.n(24, 400))
     for c in corpus_cases():
         check_e2e(ctx, c)
-    for _ in range(ctx.n(12, 250)):
-        check_e2e(ctx, gen_e2e_case(ctx.rng))
+    for _ in range(ctx.n(10, 150)):
+        case = gen_e2e_case(ctx.rng)
+        if not ctx.thorough():
+            case["ntraj"] = min(case["ntraj"], 13)   # quick tier: keep the wall time under ~90 s on a busy box
+        check_e2e(ctx, case)
     ctx.rule = ("(a) reps lists of 0-8 trajectories with reps 0..50: real get_sequences with scripted noisy_samples vs "
                 "`expand` (order, count, one extraction per trajectory, tensor shared exactly between repetitions); "
                 "(b) real run() of both backends, SPAM noise, n_trajectories 1..50, `_run_from_sequence_data` stubbed "
